@@ -53,6 +53,12 @@ CHECKS = {
     "C02": ("zoo", "exploration", "runtime differential monitoring: wrapped chains vs hand-nested closures (value + callback trace equality)",
             "The zoo twins that contain `>>>`: all ten wrapper operators, nesting depth 1-3, empty inner chains, inner block captures (sync kinds), explicit vs implicit closing, operators after `<<<`.",
             "Same trusted base as C01.", "3/C02"),
+    "C17": ("zoo", "exploration", "runtime differential monitoring on large-index and nested programs (value, capture counts, thread names vs plain Rust)",
+            "24 branches x 24 actions in one step with a distinct capture on every action (12 x 12 for thread/async kinds), multi-step shapes up to 12 steps, both fold operands captured; every ordered pair of the 12 macros nested in operand, capture and handler position (thorough: triples); results must equal plain arithmetic, captures must be evaluated exactly once, innermost branches must see the inherited thread names.",
+            "Index bound 24 and nesting depth 2 (3 in thorough) as in the property's quantifier.", "3/C17"),
+    "C19": ("zoo", "exploration", "runtime monitoring with a counting global allocator (armed per thread around the macro evaluation) + compile/run of bounds programs",
+            "Allocation: allocation-free chains for join!/try_join! (twin-checked values) must cause 0 allocations; a control allocation must be counted (monitor self-test). Bounds: move-only, !Send and borrowing (& and &mut, captures, handlers, names) programs must compile under the macros the property names and evaluate to the expected values; thorough also in release builds.",
+            "Bounds are observed through rustc accepting sampled programs; it is evidence over those programs only.", "3/C19"),
     "C14": ("lab", "exploration", "runtime monitoring of the real parser (join_impl linked as a library): structure round trip through public accessors",
             "Random and systematically enumerated chain structures are rendered to DSL text, parsed by the real parser, and the parsed structure (operators, `~`, `>>>`/`<<<`, operand token strings, branch boundaries, `let` names, handler, options) must equal the generated one. All ordered operator pairs x flags, every operator x every adversarial operand, random chains up to 30 actions. Operands are admitted by an independent splitter so the oracle never demands more than the property's side condition.",
             "Site E1 uses proc_macro2's fallback lexer; the zoo corpus runs the same renderer through rustc.", "3/C14"),
@@ -99,7 +105,7 @@ m = {
     "engines": [
         {"name": "probe", "path": "vrt/ + gen/probe.py", "serves_properties": sorted(k for k, v in CHECKS.items() if v[0] == "probe"),
          "kind_free_text": "generated probe programs over Result<Val,Fail> compiled against /repo, run under enumerated plans and schedules; reference model + monitors in vrt"},
-        {"name": "zoo", "path": "vrt/src/zoo.rs + gen/zoo.py", "serves_properties": ["C01", "C02"],
+        {"name": "zoo", "path": "vrt/src/zoo.rs + gen/zoo.py", "serves_properties": ["C01", "C02", "C17", "C19"],
          "kind_free_text": "twin functions (macro vs plain method chain with identical operand text) compiled against /repo and compared at run time"},
         {"name": "lab", "path": "lab/ + gen/dsl.py", "serves_properties": ["C10", "C13", "C14", "C15", "C16", "C20"],
          "kind_free_text": "site E1 harness linking join_impl as a library (round trip, totality, determinism, marker counting, option orders) plus rustc reject / futures_crate_path corpora"},
